@@ -46,6 +46,9 @@ Explains(r, T, name, ov, v, aid, g) ==
        ELSE IF ~SameRegs(Masked(f), g) THEN "registers reported with the failure are not the machine state at the assertion"
        ELSE ""
 
+(* tier 2 follows the code as it is: once-only matching while the finding AssertionFiresOnce is open (ONCE = "1") *)
+ImplOnce == IOEnv.ONCE = "1"
+
 JudgeTest(r, name, ov) ==
   LET T == Layout(r.prj, name) IN
   IF ~T.ok THEN <<V(r.id, "stat", "nolayout", "0")>>
@@ -70,7 +73,7 @@ JudgeTest(r, name, ov) ==
                  exp == {<<a, T.mem[a]>> : a \in {x \in DOMAIN T.mem : T.mem[x] # 0}} IN
              IF img # exp \/ run.pc # T.entry
                THEN <<V(r.id, "drift", "", "test " \o name \o ": assembled image or entry differs from the layout")>>
-             ELSE LET oo == Run(T, TRUE)                                   \* the implementation-shaped run (tier 2)
+             ELSE LET oo == Run(T, ImplOnce)                               \* the implementation-shaped run (tier 2)
                       o == IF m1 = "" THEN Run(T, FALSE) ELSE oo             \* the run that explains the reported verdict
                       n == IF Len(run.steps) < Len(o.trace) THEN Len(run.steps) ELSE Len(o.trace)
                       nf == IF Len(run.steps) < Len(oo.fired) THEN Len(run.steps) ELSE Len(oo.fired)
